@@ -10,6 +10,8 @@ import LW.Spec.Frame
 import LW.Spec.Crypto
 import LW.Spec.Addr
 import LW.Spec.BandChecks
+import LW.Spec.Misc
+import LW.Spec.Frag
 import LW.Known
 namespace LW.Driver
 open LW LW.Canon
@@ -523,6 +525,75 @@ def verdicts (st : DState) (op : String) (args : List String) (goRes : String) :
       | none, some _ => [("C11", "rejects-wellformed-identifier")]
       | _, _ => []
     | "bq", toks => bandVerdicts toks res
+    | "gpsto", [t] =>
+      (match t.toInt?, res with
+       | some t, some [r] => if r.toInt? == some (t - Spec.gpsEpoch + (Spec.gpsUtcOffset t : Int) * 1000000000) then [] else [("C20", "gps-offset-differs-from-published-leap-seconds")]
+       | _, _ => [])
+    | "gpsfrom", [d] =>
+      (match d.toInt?, res with
+       | some d, some [r] =>
+         (match r.toInt? with
+          | some t =>
+            let back := t - Spec.gpsEpoch + (Spec.gpsUtcOffset t : Int) * 1000000000
+            -- durations inside an inserted leap second have no UTC instant
+            let inLeap := (List.range Spec.leapInstants.length).any fun i =>
+              let g := Spec.leapInstants.getD i 0 - Spec.gpsEpoch + (i : Int) * 1000000000
+              g ≤ d && d < g + 1000000000
+            if back == d || inLeap then [] else [("C20", "gps-duration-to-utc-and-back-is-not-identity")]
+          | none => [])
+       | _, _ => [])
+    | "paysym", [pl, sf, cr, h, de] =>
+      (match pl.toInt?, sf.toInt?, cr.toInt?, h.toInt?, de.toInt? with
+       | some pl, some sf, some cr, some h, some de =>
+         if cr < 1 || cr > 4 then (if res.isNone then [] else [("C20", "invalid-coding-rate-accepted")]) else
+         if sf - 2 * (if de != 0 then 1 else 0) ≤ 0 then [] else
+         (match res with
+          | some [r] => if r.toInt? == some (Spec.nPayload pl sf cr (h != 0) (de != 0)) then [] else [("C20", "payload-symbols-differ-from-semtech-formula")]
+          | _ => [("C20", "payload-symbols-rejected")])
+       | _, _, _, _, _ => [])
+    | "airtime", [pl, sf, bw, pre, cr, h, de] =>
+      (match pl.toInt?, sf.toInt?, bw.toInt?, pre.toInt?, cr.toInt?, h.toInt?, de.toInt? with
+       | some pl, some sf, some bw, some pre, some cr, some h, some de =>
+         if cr < 1 || cr > 4 then (if res.isNone then [] else [("C20", "invalid-coding-rate-accepted")]) else
+         if sf - 2 * (if de != 0 then 1 else 0) ≤ 0 || bw ≤ 0 || sf < 0 || pre < 0 then [] else
+         (match res with
+          | some [r] => if r.toInt? == some (Spec.timeOnAir pl sf bw pre cr (h != 0) (de != 0)) then [] else [("C20", "airtime-differs-from-semtech-formula")]
+          | _ => [("C20", "airtime-rejected")])
+       | _, _, _, _, _, _, _ => [])
+    | "eirpidx", [b] =>
+      (match b.toNat?, res with
+       | some b, some [r] =>
+         let x := f32OfBits b
+         if natGtF32 8 x || x == .nan then [] else
+         let want := ((List.range 16).filter fun i => !natGtF32 (Spec.eirpTable.getD i 0) x).getLast?.getD 0
+         if r.toNat? == some want then [] else [("C20", "eirp-index-is-not-the-largest-entry-not-exceeding-the-power")]
+       | _, _ => [])
+    | "eirpval", [i] =>
+      (match i.toNat?, res with
+       | some i, some [r] => if i < 16 && r.toNat? == Spec.eirpTable[i]? then [] else [("C20", "eirp-table-differs")]
+       | some i, none => if i ≥ 16 then [] else [("C20", "eirp-index-rejected")]
+       | _, _ => [])
+    | "fragenc", [sz, rd, h] =>
+      (match sz.toInt?, rd.toInt?, unhx h with
+       | some size, some red, some data =>
+         let valid := size > 0 && data.length % size.toNat == 0
+         (match res with
+          | none => if valid then [("C19", "valid-request-rejected")] else []
+          | some (_n :: rows) =>
+            if !valid then [("C19", "invalid-size-not-reported-as-error")] else
+            (match rows.mapM unhx with
+             | some rs =>
+               let w := data.length / size.toNat
+               let dataRows := rowsOf w size.toNat data
+               (if rs.take w == dataRows then [] else [("C19", "data-fragments-changed-or-reordered")]) ++
+               (if rs.length == w + red.toNat then [] else [("C19", "wrong-number-of-parity-fragments")]) ++
+               (if (List.range red.toNat).all (fun y =>
+                    match Spec.matrixLine 100000 (y + 1) w with
+                    | some l => rs[w + y]? == some (xorSelected size.toNat l dataRows)
+                    | none => false) then [] else [("C19", "parity-fragment-is-not-the-xor-selected-by-the-ts004-matrix-line")])
+             | none => [("*", "unparsable-result")])
+          | _ => [])
+       | _, _, _ => [])
     | _, _ => []
 
 def verdict (prop : String) (st : DState) (op : String) (args : List String) (goRes : String) : String :=
